@@ -682,6 +682,10 @@ func (x *Exec) callEffect(call *ast.CallExpr, f *Frame, st *St, depth int, bind 
 		if v, ok := f.info.Uses[fn].(*types.Var); ok {
 			if fv, ok := st.vars[v]; ok && fv.Fn != nil && fv.Fn.Lit != nil && depth < 4 {
 				scan([]ast.Node{fv.Fn.Lit.Body}, f, depth+1, map[types.Object]ast.Expr{})
+			} else if ok && fv != nil && fv.Proto != "" {
+				x.protoEffect(fv, addLoc)
+			} else if pc := x.paramProtoOf(v.Name()); pc != "" {
+				x.protoEffect(&Val{Proto: pc, Ty: v.Type()}, addLoc)
 			}
 		}
 	case *ast.SelectorExpr:
@@ -728,6 +732,78 @@ func (x *Exec) callEffect(call *ast.CallExpr, f *Frame, st *St, depth int, bind 
 		case fi != nil && depth < 4:
 			nf := &Frame{fi: fi, info: fi.Pkg.TypesInfo}
 			scan([]ast.Node{fi.Decl.Body}, nf, depth+1, map[types.Object]ast.Expr{})
+		}
+	}
+}
+
+// paramProtoOf: the protocol the contract under verification (or, for a closure, its enclosing function's) declares for
+// a function-typed parameter or captured variable.
+func (x *Exec) paramProtoOf(name string) string {
+	if x.C != nil {
+		if p, ok := x.C.ParamProto[name]; ok {
+			return x.W.protoOf(p)
+		}
+	}
+	if x.Fn != nil && x.Fn.Lit != nil {
+		if i := strings.LastIndex(x.Fn.Key, "#"); i > 0 {
+			if pc := x.W.CS.ByKey[x.Fn.Key[:i]]; pc != nil {
+				if p, ok := pc.ParamProto[name]; ok {
+					return x.W.protoOf(p)
+				}
+			}
+		}
+	}
+	return ""
+}
+
+// protoEffect: what a call of a function value obeying a protocol / bound to a stream may modify (whole fields and
+// ghost variables), for the havoc at loop heads.
+func (x *Exec) protoEffect(fv *Val, addLoc func(string, *Term)) {
+	kind, name, _ := strings.Cut(fv.Proto, ".")
+	addItems := func(items []*ModItem, pnames []string) {
+		names := map[string]*Val{}
+		if sig, ok := fv.Ty.Underlying().(*types.Signature); ok {
+			for i, pn := range pnames {
+				if i < sig.Params().Len() {
+					pt := sig.Params().At(i).Type()
+					if s, ok := x.W.SortOf(pt); ok {
+						names[pn] = &Val{T: x.fresh("any", s), Ty: pt}
+					}
+				}
+			}
+		}
+		env := &CEnv{X: x, Names: names, St: x.entry, Pkg: x.W.mainPkg()}
+		for _, m := range items {
+			func() {
+				defer func() { recover() }()
+				for _, t := range x.modTarget(m, env) {
+					addLoc(t.key, nil)
+				}
+			}()
+		}
+	}
+	addRecs := func(sc *Contract) {
+		func() {
+			defer func() { recover() }()
+			for _, g := range x.recordVars(sc) {
+				addLoc(g.Key, nil)
+			}
+		}()
+	}
+	switch kind {
+	case "protocol":
+		if c := x.W.CS.ByKey[fv.Proto]; c != nil {
+			addItems(c.Modifies, c.Params)
+		}
+	case "next":
+		if sc := x.W.CS.ByKey["stream."+name]; sc != nil {
+			addItems(sc.Resumes, nil)
+			addRecs(sc)
+		}
+	case "yield":
+		if sc := x.W.CS.ByKey["stream."+name]; sc != nil {
+			addItems(sc.Modifies, nil)
+			addRecs(sc)
 		}
 	}
 }
